@@ -154,6 +154,8 @@ func TestC07(t *testing.T) {
 	forCases(n/200+4, 1071, "c", func(i int, r *rng, id string) { c07Conc(r, id) })
 	forCases(n/1500+2, 1072, "p", func(i int, r *rng, id string) { c07Poll(r, id) })
 	forCases(n/20, 1073, "e", func(i int, r *rng, id string) { c07Chan(r, id) })
+	// target selection on concurrent ticks must not disturb the listed set (no change of Members() without an event)
+	forCases(12, 1074, "y", func(i int, r *rng, id string) { stirLeg("C07", r, id) })
 }
 
 // C08: address conflicts / reclaim / departures: the non-local table plus random histories.
